@@ -300,11 +300,7 @@ def _main_loop(ctx: Ctx):
     inner = roles.enclosing_loop_of(fn.node, sub.call)
     if not isinstance(inner, ast.For):
         raise AnalysisError(f'{fn.where(sub.call)}: the submission site is not inside a for loop over the ready tasks')
-    outer = None
-    for n in walk_local(fn.node):
-        if isinstance(n, ast.While) and any(x is inner for x in ast.walk(n)):
-            if outer is None or n.lineno >= outer.lineno:
-                outer = n
+    outer = roles._innermost_containing(fn.node, inner, ast.While)
     if outer is None:
         raise AnalysisError(f'{fn.where(inner)}: the submit loop is not inside a while loop')
     return sub, fn, inner, outer
@@ -337,10 +333,7 @@ def submit_from_ready(ctx: Ctx):
                     src_call = strip_order_preserving(dv[1])
             if isinstance(src_call, ast.Call) and st.ready_method.qualname in ctx.P.resolve_call(src_call, fn):
                 # evaluated in the same iteration of the enclosing while loop
-                outer = None
-                for n in walk_local(fn.node):
-                    if isinstance(n, ast.While) and any(x is inner for x in ast.walk(n)):
-                        outer = n
+                outer = roles._innermost_containing(fn.node, inner, ast.While)
                 same_iter = outer is not None and any(x is src_call for x in ast.walk(outer))
                 ok = same_iter
                 msg = 'the ready list is computed outside the main loop (stale across iterations)'
@@ -510,8 +503,11 @@ def edges(ctx: Ctx):
                 if isinstance(deps_arg, ast.Name):
                     defs = rd.reaching(g.primary(call), deps_arg.id)
                     vals = [rd.def_value(d, deps_arg.id) for d in defs]
-                    okp = any(v and v[0] == 'value' and isinstance(v[1], ast.Call) and gdd.qualname in ctx.P.resolve_call(v[1], cf)
-                              for v in vals)
+                    def _has_gdd(e):
+                        if isinstance(e, ast.IfExp):
+                            return _has_gdd(e.body) or _has_gdd(e.orelse)
+                        return isinstance(e, ast.Call) and gdd.qualname in ctx.P.resolve_call(e, cf)
+                    okp = any(v and v[0] == 'value' and _has_gdd(v[1]) for v in vals)
                 elif isinstance(deps_arg, ast.Call):
                     okp = gdd.qualname in ctx.P.resolve_call(deps_arg, cf)
                 yield ctx.ob('C02.EDGES', okp, cf, call, 'inserted with the result of get_direct_dependencies',
